@@ -62,6 +62,15 @@ def run (args : List String) : Option String :=
       | .chunk c => pure s!"CHUNK {fmtChunk c} writes={fmtList fmtPart (sortParts ws)} seen={fmtObs obs}"
       | .written _ fin =>
         pure s!"WRITTEN writes={fmtList fmtPart (sortParts ws)} final={fmtList (fun (p : Part Nat) => toString p.id) fin} seen={fmtObs obs}"
+  | ["seeds", hasW, minWrite, minPart, wpc, markFinal, nparts] => do
+    let hasW ← parseBool? hasW
+    let minWrite ← parseNat? minWrite; let minPart ← parseNat? minPart; let wpc ← parseNat? wpc
+    let markFinal ← parseBool? markFinal
+    let nparts ← parseList? parseNat? nparts
+    let w : Option Writer := if hasW then some ⟨minWrite, minPart, minPart + 1000000⟩ else none
+    let cfg : Cfg := ⟨w, 0, wpc, markFinal⟩
+    let fmtSeed := fun (s : Seed) => s!"{s.partId}#{s.credits}/{fmtBool s.isFinal}/{s.lhsKeep}"
+    pure (fmtList (fmtList fmtSeed) (mpuWriteSeeds cfg nparts))
   | _ => none
 
 end OdcGeo.C06.Drv
